@@ -286,3 +286,98 @@ From MT Require Import MergePermEquiv.
 Theorem C14_merge_full_holds : C14_merge_full.
 Proof. exact merge_perm_equivb. Qed.
 Print Assumptions C14_merge_full_holds.
+
+(* ================= the rewriters (Proofs/StubSetRewrite*.v) =================
+   The literal C14_full is REFUTED (a class table whose MRO omits the class itself; non-normal inputs); proved is the
+   strongest true variant: outside kf_td_under_union every rewriter and every chain maps equivb-equal normal types to
+   equivb-equal types, and merge-then-rewrite is order-invariant. *)
+(* ---------------- (5) the rewriter chain (Proofs/StubSetRewrite*.v) ---------------- *)
+From MT Require RewriteTrigger MergePermBase StubSetRewriteHier StubSetRewrite StubSetRewriteClass StubSetRewriteEx.
+
+(* every class's MRO lists the class itself (in Python: as its first entry) *)
+Definition mro_selfb := StubSetRewriteHier.mro_selfb.
+
+(* every shipped rewriter maps equivb-equal, well-formed, normal types outside kf_td_under_union to equivb-equal
+   types (again outside the class), for class tables with consistent, self-listing MROs *)
+Theorem rw_equiv_invariant :
+  forall h bt, mro_consistentb h = true -> mro_selfb h = true ->
+  forall r a b, wf_ty a -> wf_ty b -> RewriteTrigger.normal a = true -> RewriteTrigger.normal b = true ->
+    MergePermBase.kf_td_under_union a = false -> equivb a b = true ->
+    equivb (rw h bt r a) (rw h bt r b) = true
+    /\ MergePermBase.kf_td_under_union (rw h bt r a) = false /\ MergePermBase.kf_td_under_union (rw h bt r b) = false.
+Proof. exact StubSetRewrite.rw_equiv_invariant. Qed.
+Print Assumptions rw_equiv_invariant.
+
+Theorem rw_chain_equiv_invariant :
+  forall h bt, mro_consistentb h = true -> mro_selfb h = true ->
+  forall rs a b, wf_ty a -> wf_ty b -> RewriteTrigger.normal a = true -> RewriteTrigger.normal b = true ->
+    MergePermBase.kf_td_under_union a = false -> equivb a b = true ->
+    equivb (rw_chain h bt rs a) (rw_chain h bt rs b) = true
+    /\ MergePermBase.kf_td_under_union (rw_chain h bt rs a) = false
+    /\ MergePermBase.kf_td_under_union (rw_chain h bt rs b) = false.
+Proof. exact StubSetRewrite.rw_chain_equiv_invariant. Qed.
+Print Assumptions rw_chain_equiv_invariant.
+
+(* C14_full with the premises it needs: MROs list their own class, the traced types are normal (as typing builds
+   them), and the merged type has no TypedDict-bearing union member *)
+Theorem rw_equiv_invariant_partial :
+  forall k h bt rs ts ts' t t',
+    mro_consistentb h = true -> mro_selfb h = true ->
+    Forall wf_ty ts -> forallb RewriteTrigger.normal ts = true -> Permutation ts ts' ->
+    shrink_top k ts = Some t -> shrink_top k ts' = Some t' -> MergePermBase.kf_td_under_union t = false ->
+    equivb (rw_chain h bt rs t) (rw_chain h bt rs t') = true.
+Proof. exact StubSetRewrite.rw_equiv_invariant_partial. Qed.
+Print Assumptions rw_equiv_invariant_partial.
+
+Theorem merge_rewrite_perm_partial :
+  forall h bt, mro_consistentb h = true -> mro_selfb h = true ->
+  forall k rs ts ts',
+    Forall wf_ty ts -> forallb RewriteTrigger.normal ts = true -> Permutation ts ts' ->
+    (forall t, shrink_top k ts = Some t -> MergePermBase.kf_td_under_union t = false) ->
+    opt_equivb (option_map (rw_chain h bt rs) (shrink_top k ts)) (option_map (rw_chain h bt rs) (shrink_top k ts')) = true.
+Proof. exact StubSetRewrite.merge_rewrite_perm_opt. Qed.
+Print Assumptions merge_rewrite_perm_partial.
+
+(* the same with premises on the traced types only: every input is outside kf_td_under_union and has no TypedDict
+   below DefaultDict / Type / Iterator (where RewriteAnonymousTypedDictToDict does not reach) *)
+Definition c14_inputb := StubSetRewriteClass.c14_inputb.
+
+Theorem merge_outside_class :
+  forall k ts t, Forall wf_ty ts -> forallb c14_inputb ts = true -> shrink_top k ts = Some t ->
+    MergePermBase.kf_td_under_union t = false.
+Proof. exact StubSetRewriteClass.merge_outside_class. Qed.
+Print Assumptions merge_outside_class.
+
+Theorem merge_rewrite_perm_inputs_partial :
+  forall h bt k rs ts ts',
+    mro_consistentb h = true -> mro_selfb h = true ->
+    Forall wf_ty ts -> forallb RewriteTrigger.normal ts = true -> forallb c14_inputb ts = true -> Permutation ts ts' ->
+    opt_equivb (option_map (rw_chain h bt rs) (shrink_top k ts)) (option_map (rw_chain h bt rs) (shrink_top k ts')) = true.
+Proof. exact StubSetRewriteClass.merge_rewrite_perm_inputs. Qed.
+Print Assumptions merge_rewrite_perm_inputs_partial.
+
+(* the literal C14_full is false: its premises allow a class table in which a class's MRO omits the class ... *)
+Theorem C14_full_refuted : ~ C14_full.
+Proof. exact StubSetRewriteEx.C14_rw_stmt_consistent_only_refuted. Qed.
+Print Assumptions C14_full_refuted.
+
+(* ... and, with self-listing MROs, input types that are not in typing's normal form *)
+Theorem C14_rw_nonnormal_refuted : ~ C14_rw_stmt (fun h => mro_consistentb h && mro_selfb h).
+Proof. exact StubSetRewriteEx.C14_rw_stmt_nonnormal_refuted. Qed.
+Print Assumptions C14_rw_nonnormal_refuted.
+
+Example ex_chain_rcd : 
+  let ts_ := TCls cStr in let ti := TCls cInt in
+  let chain := [RRemoveEmpty; RConfigDict; RLargeUnion 6; RGenerator] in
+  let ts  := [TDict ts_ (TUnion [TCls 16%N; TCls 19%N]); TDict ts_ (TList TAny); TDict ts_ (TList (TCls 17%N));
+              TDict ts_ (TTuple [ti; ti]); TDict ts_ (TCls 18%N)] in
+  let ts' := [TDict ts_ (TCls 18%N); TDict ts_ (TTuple [ti; ti]); TDict ts_ (TList (TCls 17%N)); TDict ts_ (TList TAny);
+              TDict ts_ (TUnion [TCls 19%N; TCls 16%N])] in
+  mro_consistentb StubSetRewriteEx.hx = true /\ mro_selfb StubSetRewriteEx.hx = true
+  /\ forallb RewriteTrigger.normal ts = true
+  /\ option_map MergePermBase.kf_td_under_union (shrink_top 3 ts) = Some false
+  /\ option_map (rw_chain StubSetRewriteEx.hx StubSetRewriteEx.btx chain) (shrink_top 3 ts)
+     <> option_map (rw_chain StubSetRewriteEx.hx StubSetRewriteEx.btx chain) (shrink_top 3 ts')
+  /\ opt_equivb (option_map (rw_chain StubSetRewriteEx.hx StubSetRewriteEx.btx chain) (shrink_top 3 ts))
+                (option_map (rw_chain StubSetRewriteEx.hx StubSetRewriteEx.btx chain) (shrink_top 3 ts')) = true.
+Proof. vm_compute. repeat split; try reflexivity. discriminate. Qed.
